@@ -25,7 +25,7 @@ Section MI.
   Definition EQ (a b : expr) : Prop := forall tr res, ev tr a = Some res -> ev tr b = Some res.
 
   Definition okt (e : expr) : Prop := flags_ok W e /\ vls_ok e.
-  Definition okb (e : expr) : Prop := flags_ok W e /\ vls_ok e /\ no_hole_args e /\ spine_ok e.
+  Definition okb (e : expr) : Prop := flags_ok W e /\ vls_ok e /\ no_hole_args e.
 
   Lemma EQ_refl : forall a, EQ a a.
   Proof. intros a tr res H. exact H. Qed.
@@ -267,7 +267,7 @@ Section MI.
   Lemma target_pure : forall oc t tr tr1 o, flags_ok W t -> can_be_removed ub t = true ->
     eval_target W oc tr t = Some (tr1, o) -> tr1 = tr.
   Proof.
-    intros oc t tr tr1 o Hf Hc H. unfold eval_target in H. destruct (oc =? 2).
+    intros oc t tr tr1 o Hf Hc H. unfold eval_target in H. destruct (is_cont oc).
     - assert (E : exists o', ev tr t = Some (tr1, o')).
       { destruct t; try (cbn [eval_raw] in H; discriminate H); try (cbn [can_be_removed] in Hc; discriminate Hc).
         - rewrite eval_catch_raw_dot, H. apply catch_short_trace.
@@ -350,11 +350,10 @@ Section MI.
       apply andb_true_iff in C. destruct C as [C C3]. apply andb_true_iff in C. destruct C as [C1 C2].
       apply Nat.eqb_eq in C1. apply Z.eqb_eq in C2. subst noc. apply Bool.eqb_prop in C3. subst np.
       destruct Ht as [Htf Htv].
-      destruct Hy as [Hyf [Hyv [Hyh Hys]]]. destruct Hn as [Hnf [Hnv [Hnh Hns]]].
+      destruct Hy as [Hyf [Hyv Hyh]]. destruct Hn as [Hnf [Hnv Hnh]].
       cbn [flags_ok] in Hyf, Hnf. destruct Hyf as [_ [Hytf [Hy0f Hytlf]]]. destruct Hnf as [_ [Hntf [Hn0f Hntlf]]].
       cbn [vls_ok] in Hyv, Hnv. destruct Hyv as [Hytv [Hy0v Hytlv]]. destruct Hnv as [Hntv [Hn0v Hntlv]].
       cbn [no_hole_args] in Hyh, Hnh. destruct Hyh as [[Hy0m Hy0h] _]. destruct Hnh as [[Hn0m Hn0h] _].
-      cbn [spine_ok] in Hys, Hns. destruct Hys as [_ [_ [Hy0s _]]]. destruct Hns as [_ [_ [Hn0s _]]].
       assert (St : same_eval W yt nt) by (exact (vls_sound_size W (esize yt) yt (le_n _) nt Hytv Hntv C4)).
       assert (Htl : forall tr acc, eval_items_with W ev tr ytl acc = eval_items_with W ev tr ntl acc).
       { apply tail_items_same; try assumption; apply vls_all; assumption. }
@@ -371,7 +370,7 @@ Section MI.
         apply as_spread_inv in Sy, Sn. subst y0 n0.
         destruct (rec test ys ns) as [x0|] eqn:R; [|discriminate H]. inv H.
         assert (HX : EQ (EIf test ys ns) x0).
-        { apply (Hrec _ _ _ _ R); [split; assumption | |]; (split; [assumption | split; [assumption | split; assumption]]). }
+        { apply (Hrec _ _ _ _ R); [split; assumption | |]; (split; [assumption | split; assumption]). }
         intros tr res E. rewrite if_eval in E.
         destruct (ev tr test) as [r|] eqn:Et; [|discriminate E].
         destruct (pure_test test tr r Htf C5 Et) as [v ->]. cbn [bind] in E.
@@ -383,7 +382,7 @@ Section MI.
       - (* neither is a spread *)
         destruct (rec test y0 n0) as [x0|] eqn:R; [|discriminate H]. inv H.
         assert (HX : EQ (EIf test y0 n0) x0).
-        { apply (Hrec _ _ _ _ R); [split; assumption | |]; (split; [assumption | split; [assumption | split; assumption]]). }
+        { apply (Hrec _ _ _ _ R); [split; assumption | |]; (split; [assumption | split; assumption]). }
         intros tr res E. rewrite if_eval in E.
         destruct (ev tr test) as [r|] eqn:Et; [|discriminate E].
         destruct (pure_test test tr r Htf C5 Et) as [v ->]. cbn [bind] in E.
@@ -444,14 +443,14 @@ Section MI.
   (* "a != null ? a.b : undefined" => "a?.b" *)
   Lemma chain_core : forall check t whenNonNull x (neg : bool),
     flags_ok W check -> can_be_removed ub check = true -> vls_ok check ->
-    vls_ok whenNonNull -> spine_ok whenNonNull ->
+    vls_ok whenNonNull ->
     (forall tr v, ev tr check = Some (tr, Val v) -> ev tr t = Some (tr, Val (VBool (if neg then negb (nullish v) else nullish v)))) ->
     (forall tr r, ev tr t = Some r -> exists r', ev tr check = Some r') ->
     try_insert_optional_chain check whenNonNull = Some x ->
     EQ (if neg then EIf t whenNonNull EUndefined else EIf t EUndefined whenNonNull) x.
   Proof.
-    intros check t whenNonNull x neg Hf Hc Hcv Hwv Hws Ht Hdef Hx tr res E.
-    destruct (tioc_sound W check whenNonNull x Hcv Hwv Hws Hx) as [_ [_ Hsem]].
+    intros check t whenNonNull x neg Hf Hc Hcv Hwv Ht Hdef Hx tr res E.
+    destruct (tioc_sound W check whenNonNull x Hcv Hwv Hx) as [_ [_ Hsem]].
     assert (Et : exists r, ev tr t = Some r).
     { destruct neg; rewrite if_eval in E; destruct (ev tr t) as [r|]; try discriminate E; eauto. }
     destruct Et as [r Et]. destruct (Hdef _ _ Et) as [r' Ec].
@@ -466,14 +465,14 @@ Section MI.
   Qed.
 
   Lemma nullish_sound : forall noN noC test yes no x, okt test ->
-    vls_ok yes -> vls_ok no -> spine_ok yes -> spine_ok no ->
+    vls_ok yes -> vls_ok no ->
     mi_nullish ub noN noC test yes no = Some x -> EQ (EIf test yes no) x.
   Proof.
-    intros noN noC test yes no x [Htf Htv] Hyv Hnv Hys Hns H. unfold mi_nullish in H.
+    intros noN noC test yes no x [Htf Htv] Hyv Hnv H. unfold mi_nullish in H.
     destruct test as [| | | | | | | | | | | | | | | | | | bop bl br | | | | | | |]; try discriminate H.
     cbn [flags_ok] in Htf. destruct Htf as [Hlf Hrf]. cbn [vls_ok] in Htv. destruct Htv as [Hlv Hrv].
     assert (Hfin : forall check whenNull whenNonNull (neg : bool),
-      flags_ok W check -> vls_ok check -> vls_ok whenNonNull -> spine_ok whenNonNull ->
+      flags_ok W check -> vls_ok check -> vls_ok whenNonNull ->
       (forall tr v, ev tr check = Some (tr, Val v) ->
          ev tr (EBin bop bl br) = Some (tr, Val (VBool (if neg then negb (nullish v) else nullish v)))) ->
       (forall tr r, ev tr (EBin bop bl br) = Some r -> exists r', ev tr check = Some r') ->
@@ -485,7 +484,7 @@ Section MI.
          else None
        else None) = Some x ->
       EQ (if neg then EIf (EBin bop bl br) whenNonNull whenNull else EIf (EBin bop bl br) whenNull whenNonNull) x).
-    { intros check whenNull whenNonNull neg Hcf Hcv Hwv Hws Hte Hdef Hx.
+    { intros check whenNull whenNonNull neg Hcf Hcv Hwv Hte Hdef Hx.
       destruct (can_be_removed ub check) eqn:Cc; [|discriminate Hx].
       destruct (negb noN && values_look_the_same check whenNonNull) eqn:Cn.
       - inv Hx. apply andb_true_iff in Cn. destruct Cn as [_ V].
@@ -494,7 +493,7 @@ Section MI.
         apply vls_eq; assumption.
       - destruct (negb noC); [|discriminate Hx].
         destruct whenNull; try discriminate Hx.
-        exact (chain_core check (EBin bop bl br) whenNonNull x neg Hcf Cc Hcv Hwv Hws Hte Hdef Hx). }
+        exact (chain_core check (EBin bop bl br) whenNonNull x neg Hcf Cc Hcv Hwv Hte Hdef Hx). }
     destruct bop; try discriminate H.
     - (* == *)
       destruct (is_null br) eqn:Nr.
@@ -523,7 +522,7 @@ Section MI.
     mangle_tail rec ub noN noC test yes no = Some x -> EQ (EIf test yes no) x.
   Proof.
     intros rec noN noC test yes no x Hrec Ht Hy Hn H. unfold mangle_tail in H.
-    pose proof Ht as [Htf Htv]. pose proof Hy as [Hyf [Hyv [_ Hys]]]. pose proof Hn as [Hnf [Hnv [_ Hns]]].
+    pose proof Ht as [Htf Htv]. pose proof Hy as [Hyf [Hyv _]]. pose proof Hn as [Hnf [Hnv _]].
     destruct (values_look_the_same yes no) eqn:V.
     - destruct (can_be_removed ub test) eqn:C; inv H.
       + apply same_branches_pure; try assumption. apply vls_eq; assumption.
@@ -613,14 +612,14 @@ Theorem mangle_if_equiv_all : forall (W : world), world_ok W ->
   forall noNullish noOptChain test yes no,
     flags_ok W test -> flags_ok W yes -> flags_ok W no ->
     vls_ok test -> vls_ok yes -> vls_ok no ->
-    no_hole_args yes -> no_hole_args no -> spine_ok yes -> spine_ok no ->
+    no_hole_args yes -> no_hole_args no ->
     exists e', mangle_if (w_unbound W) noNullish noOptChain test yes no = Some e' /\
       forall tr res, eval W tr (EIf test yes no) = Some res -> eval W tr e' = Some res.
 Proof.
-  intros W Wok noN noC test yes no Ft Fy Fn Vt Vy Vn Hy Hn Sy Sn.
+  intros W Wok noN noC test yes no Ft Fy Fn Vt Vy Vn Hy Hn.
   destruct (mangle_if_total_all (w_unbound W) noN noC test yes no) as [e' E].
   exists e'. split; [exact E|].
   unfold mangle_if in E.
   exact (mangle_if_fuel_sound W Wok _ noN noC test yes no e' (conj Ft Vt)
-           (conj Fy (conj Vy (conj Hy Sy))) (conj Fn (conj Vn (conj Hn Sn))) E).
+           (conj Fy (conj Vy Hy)) (conj Fn (conj Vn Hn)) E).
 Qed.
